@@ -21,13 +21,40 @@ func init() {
 	})
 }
 
+// endEmitters: the functions (other than the pre-handler reporter operation.reportError) that
+// invoke the client protocol's end encoder - today responseWriter.writeEnd.
+func endEmitters(p *Prog) (emitters []*ssa.Function, isEmitter map[*ssa.Function]bool, isEndEncode func(ssa.Instruction) bool) {
+	opReportEarly := p.MustFunc("(*operation).reportError")
+	isEndEncode = func(in ssa.Instruction) bool {
+		ci, ok := in.(ssa.CallInstruction)
+		return ok && ci.Common().IsInvoke() && ci.Common().Method.Name() == "encodeEnd"
+	}
+	isEmitter = map[*ssa.Function]bool{}
+	for _, fn := range p.Funcs {
+		if fn == opReportEarly {
+			continue
+		}
+		has := false
+		ForEachInstr(fn, func(in ssa.Instruction) {
+			if isEndEncode(in) {
+				has = true
+			}
+		})
+		if has {
+			emitters = append(emitters, fn)
+			isEmitter[fn] = true
+		}
+	}
+	return
+}
+
 func runC03(c *Ctx) {
 	p := c.P
 	rwT := p.MustNamed("responseWriter")
 	_ = rwT
 	flushHeaders := p.MustFunc("(*responseWriter).flushHeaders")
 	reportEnd := p.MustFunc("(*responseWriter).reportEnd")
-	writeEnd := p.MustFunc("(*responseWriter).writeEnd")
+	emitters, isEmitter, isEndEncode := endEmitters(p)
 	writeHeader := p.MustFunc("(*responseWriter).WriteHeader")
 	rwWrite := p.MustFunc("(*responseWriter).Write")
 	opReport := p.MustFunc("(*operation).reportError")
@@ -86,9 +113,18 @@ func runC03(c *Ctx) {
 		for _, call := range Calls(fn) {
 			cc := call.Common()
 			if cc.IsInvoke() && cc.Method.Name() == "encodeEnd" {
-				ok := fn == writeEnd || fn == opReport
+				ok := fn == opReport || fn == reportEnd || fn == flushHeaders
+				if !ok && fn.Signature.Recv() != nil && isPtrTo(fn.Signature.Recv().Type(), RootPath, "responseWriter") {
+					// a helper of the response writer reached only through reportEnd / flushHeaders
+					ok = len(p.Callers(fn)) > 0
+					for _, e := range p.Callers(fn) {
+						if e.Caller != reportEnd && e.Caller != flushHeaders {
+							ok = false
+						}
+					}
+				}
 				c.Check(ok, "C03.2", FuncName(fn), "who-calls:encodeEnd", call.Pos(),
-					"the end encoder is invoked from its two designated callers only", "the client protocol's end encoder is invoked outside responseWriter.writeEnd / operation.reportError: a second terminal disposition can be emitted")
+					"the end encoder is invoked only by the response writer's end path (reportEnd / flushHeaders, or a helper only they call) and the pre-handler reporter", "the client protocol's end encoder is invoked outside responseWriter's reportEnd / flushHeaders end path and operation.reportError: a second terminal disposition can be emitted")
 			}
 			if cc.IsInvoke() && cc.Method.Name() == "WriteHeader" && isNamed(cc.Value.Type(), "net/http", "ResponseWriter") {
 				allowed := map[string]bool{"(*responseWriter).flushHeaders": true, "(*operation).reportError": true, "(*httpError).Encode": true, "httpWriteError": true}
@@ -97,10 +133,8 @@ func runC03(c *Ctx) {
 			}
 		}
 	}
-	// writeEnd called only from reportEnd/flushHeaders
-	for _, e := range p.Callers(writeEnd) {
-		ok := e.Caller == reportEnd || e.Caller == flushHeaders
-		c.Check(ok, "C03.2", FuncName(e.Caller), "who-calls:writeEnd", e.Site.Pos(), "writeEnd is reached through reportEnd / flushHeaders", "writeEnd is called from outside reportEnd / flushHeaders")
+	if len(emitters) == 0 {
+		c.Bad("C03.2", FuncName(reportEnd), "end-emitters", reportEnd.Pos(), "no function of the response writer invokes the end encoder: shape changed")
 	}
 	// reportEnd: every path to writeEnd / flushHeaders has endWritten == false
 	isCallTo := func(targets ...*ssa.Function) func(ssa.Instruction) bool {
@@ -127,8 +161,23 @@ func runC03(c *Ctx) {
 		}
 		return false
 	}
+	emitsEnd := func(in ssa.Instruction) bool {
+		if isEndEncode(in) {
+			return true
+		}
+		ci, ok := in.(ssa.CallInstruction)
+		if !ok {
+			return false
+		}
+		for _, cal := range p.CalleesAt(ci) {
+			if cal == flushHeaders || (isEmitter[cal] && cal != reportEnd) {
+				return true
+			}
+		}
+		return false
+	}
 	ForEachInstr(reportEnd, func(in ssa.Instruction) {
-		if isCallTo(writeEnd, flushHeaders)(in) {
+		if emitsEnd(in) {
 			c.Check(fieldFalse(in.Block(), endWrittenF), "C03.2", FuncName(reportEnd), "guard:endWritten", in.Pos(),
 				"the end is emitted only on the edge where endWritten is false", "reportEnd can emit an end although one was already written (endWritten not tested on this path)")
 		}
@@ -172,9 +221,16 @@ func runC03(c *Ctx) {
 			b, isC := ConstBool(st.Val)
 			return isC && b
 		}
-		okSet, path := MustPassToExit(writeEnd, nil, setsEnd, IsReturn, nil)
-		c.Check(okSet, "C03.2", FuncName(writeEnd), "sets:endWritten", writeEnd.Pos(),
-			"writeEnd sets endWritten on every path", "writeEnd can return without setting endWritten: "+witnessString(p, path))
+		for _, em := range emitters {
+			ForEachInstr(em, func(in ssa.Instruction) {
+				if !isEndEncode(in) {
+					return
+				}
+				okSet, path := MustPassToExit(em, in, setsEnd, IsReturn, nil)
+				c.Check(okSet, "C03.2", FuncName(em), "sets:endWritten", in.Pos(),
+					"endWritten is set on every path after the end encoder ran", "a path returns after the end encoder ran without setting endWritten: "+witnessString(p, path))
+			})
+		}
 	}
 	// after an end was reported the writer refuses data: reportEnd stores a non-nil err on all paths that emitted an end
 	{
@@ -187,7 +243,7 @@ func runC03(c *Ctx) {
 			return ok && FieldOfAddr(fa) == errF && !IsNilConst(st.Val)
 		}
 		ForEachInstr(reportEnd, func(in ssa.Instruction) {
-			if isCallTo(writeEnd, flushHeaders)(in) {
+			if emitsEnd(in) {
 				okSet, path := MustPassToExit(reportEnd, in, setsErr, IsReturn, nil)
 				c.Check(okSet, "C03.2", FuncName(reportEnd), "sets:err-after-end", in.Pos(),
 					"after emitting the end the writer's error cell is set (later writes are refused)", "after emitting the end a path leaves reportEnd without closing the writer for data: "+witnessString(p, path))
